@@ -1,7 +1,7 @@
 """C08 — async reader delivers what the blocking reader delivers (DESIGN §4/C08)."""
 from rules import lib_call
 
-LEVEL = "other"
+LEVEL = "proof"
 FUNCS = ["stream::DltStreamReader::<S>::next_message_slice::{closure#0}", "stream::read_message::{closure#0}", "stream::DltStreamReader::<S>::next_message_slice", "stream::read_message",
          "stream::DltStreamReader::<S>::new", "stream::DltStreamReader::<S>::with_capacity", "stream::DltStreamReader::<S>::with_storage_header"]
 
@@ -14,6 +14,11 @@ def run(ctx):
     R.floor("CALL-R", 2)
     try:
         from rules import lib_reader
-        lib_reader.check(ctx, "stream")
+        S = lib_reader.check(ctx, "stream")
+        if S is not None and "norm" in S:
+            lib_reader.sibling_check(ctx, S)
+            R.floor("SIB", 8)
+            R.floor("PANIC", 6)
+            R.floor("ALG", 2)
     except ImportError:
         R.notes.append("SIB / PANIC not built yet")
